@@ -7,7 +7,7 @@ TRUSTED_BASE = [
     'TermId nodes are represented by their (prefix,id) key (justified by C04)',
 ]
 ASSUMPTIONS = ['edge lists are acyclic and non-empty; owl:Thing is not an input term']
-THEOREM = 'C01_parents_children_spec / C01_ancestors_descendants_spec / C01_include_source'
+THEOREM = 'C01_queries_are_closure / C01_include_source / C01_factory_total'
 FACTORIES = ['idx', 'inc', 'bld']
 
 
